@@ -147,20 +147,26 @@ def eval_text(text, salt):
 
 
 def fold_tree(e, salt):
+    """Value of a tensora expression tree (iterative along the left spine, which is where a long chain is deep)."""
     from tensora.expression import ast as E
 
+    spine = []
+    while isinstance(e, (E.Add, E.Subtract, E.Multiply)):
+        spine.append(e)
+        e = e.left
     if isinstance(e, E.Tensor):
-        return env_value((e.name, tuple(e.indexes)), salt)
-    if isinstance(e, E.Integer):
-        return Fraction(e.value)
-    if isinstance(e, E.Float):
-        return Fraction(e.value)
-    l, r = fold_tree(e.left, salt), fold_tree(e.right, salt)
-    if isinstance(e, E.Add):
-        return l + r
-    if isinstance(e, E.Subtract):
-        return l - r
-    return l * r
+        v = env_value((e.name, tuple(e.indexes)), salt)
+    else:
+        v = Fraction(e.value)
+    for node in reversed(spine):
+        r = fold_tree(node.right, salt)
+        if isinstance(node, E.Add):
+            v = v + r
+        elif isinstance(node, E.Subtract):
+            v = v - r
+        else:
+            v = v * r
+    return v
 
 
 def strip_parens_value(text, salt):
@@ -365,6 +371,33 @@ def build_tree(t):
 TYPED_FAILURES = {"ParseError", "MutatingAssignmentError", "InconsistentDimensionsError", "NameConflictError"}
 
 
+def tree_equal(x, y):
+    """Structural equality of two tensora assignments / expressions with an explicit stack (the dataclass-generated
+    __eq__ recurses and exceeds the interpreter's recursion limit on a chain of 400 terms)."""
+    from tensora.expression import ast as E
+
+    stack = [(x, y)]
+    while stack:
+        a, b = stack.pop()
+        if type(a) is not type(b):
+            return False
+        if isinstance(a, E.Assignment):
+            stack.append((a.target, b.target))
+            stack.append((a.expression, b.expression))
+        elif isinstance(a, (E.Add, E.Subtract, E.Multiply)):
+            stack.append((a.left, b.left))
+            stack.append((a.right, b.right))
+        elif isinstance(a, E.Tensor):
+            if a.name != b.name or tuple(a.indexes) != tuple(b.indexes):
+                return False
+        elif isinstance(a, (E.Integer, E.Float)):
+            if a.value != b.value:
+                return False
+        elif a != b:
+            return False
+    return True
+
+
 def safe_parse(fn, text):
     """-> ('success', value) | ('failure', error) | ('raised', exc)"""
     from returns.result import Failure, Success
@@ -419,7 +452,7 @@ def check_text(case, ctx=None):
         st_, v = safe_parse(parse_assignment, text)
         if st_ != "success":
             fails.append(fail(f"deparsed-tree-does-not-parse:{st_}", f"{text!r}: {v}"))
-        elif v != asg:
+        elif not tree_equal(v, asg):
             fails.append(fail("tree-round-trip", f"{text!r} parsed to {v.deparse()!r}"))
         else:
             nontrivial = text.count("(") > len(re.findall(r"[A-Za-z0-9]\(", text))
@@ -458,7 +491,7 @@ def check_text(case, ctx=None):
         st2, v2 = safe_parse(parse_assignment, d1)
         if st2 != "success":
             fails.append(fail(f"deparsed-text-does-not-parse:{st2}", f"{text!r} -> {d1!r}: {v2}"))
-        elif v2 != va:
+        elif not tree_equal(v2, va):
             fails.append(fail("text-round-trip", f"{text!r} -> {d1!r} -> {v2.deparse()!r}"))
         # (3) meaning
         try:
@@ -493,7 +526,81 @@ def check_text(case, ctx=None):
     return result(fails, labels, nontrivial, jhash(text), sample)
 
 
+# ------------------------------------------------------------------------- long inputs
+@st.composite
+def long_sentences(draw, tier):
+    """Valid sentences that are long in one direction only: one literal with hundreds of digits (beyond the range of a
+    double, beyond 2^64), or a flat chain of up to 600 terms (no nesting in the text; the left fold makes the *tree*
+    that deep).  'Any string yields a tree or a typed failure' covers these."""
+    if draw(st.booleans()):
+        n = draw(st.sampled_from([20, 39, 100, 308, 309, 310, 311, 400, 1200]))
+        first = draw(st.sampled_from("123456789"))
+        digits = first + "".join(draw(st.sampled_from("0123456789")) for _ in range(min(n - 1, 12))) + "0" * max(0, n - 13)
+        shape = draw(st.sampled_from(["int", "int", "int", "frac", "exp", "zeros"]))
+        if shape == "frac":
+            lit = "0." + digits
+        elif shape == "exp":
+            lit = "1." + digits[:20] + "e" + draw(st.sampled_from(["-", "+", ""])) + draw(st.sampled_from(["5", "300", "307", "400", "99999"]))
+        elif shape == "zeros":
+            lit = "0" * draw(st.integers(1, 300)) + digits[:5]
+        else:
+            lit = digits
+        op1, op2 = draw(st.sampled_from("+-*")), draw(st.sampled_from("+-*"))
+        text = draw(st.sampled_from([f"out(i) = a(i) {op1} {lit}", f"out(i) = {lit} {op1} a(i) {op2} b(i)", f"out() = {lit}",
+                                     f"out(i) = (a(i) {op1} {lit}) {op2} {lit}"]))
+        # a floating-point literal beyond the double range may be refused (with a typed failure), everything else parses
+        refusable = shape in ("frac", "exp") and float(lit) in (float("inf"),)
+        return {"text": text, "kind": "long", "shape": "literal:" + shape, "may_be_refused": refusable}
+    n = draw(st.sampled_from([60, 150, 300, 450, 600]))
+    ops = draw(st.sampled_from(["+-", "*", "+-*", "+", "-"]))
+    atoms = ["a(i)", "b()", "2", "c(i,j)", "1.5"]
+    parts = [draw(st.sampled_from(atoms))]
+    for _ in range(n - 1):
+        parts.append(draw(st.sampled_from(ops)))
+        parts.append(draw(st.sampled_from(atoms)))
+    return {"text": "out(i) = " + " ".join(parts), "kind": "long", "shape": f"chain:{n}"}
+
+
+def check_long(case, ctx=None):
+    """check_text on a thread of its own: the interpreter's recursion limit is counted per thread, so the verdict does
+    not depend on how deep the harness (Hypothesis, the runner) already is when the case is run."""
+    import threading
+
+    box = {}
+
+    def body():
+        # Hypothesis raises the (process-wide) recursion limit while a test body runs; the statement is about the
+        # interpreter as a user has it, so the default limit of 1000 frames is put back for the duration of the case
+        # (the main thread is parked in join() meanwhile)
+        import sys
+
+        saved = sys.getrecursionlimit()
+        sys.setrecursionlimit(1000)
+        try:
+            box["res"] = check_text(dict(case, kind="arbitrary" if case.get("may_be_refused") else "sentence"))
+        except RecursionError as e:  # the harness's own evaluator ran out of stack: not a verdict
+            box["err"] = e
+        finally:
+            sys.setrecursionlimit(saved)
+
+    old = threading.stack_size(256 << 20)
+    try:
+        t = threading.Thread(target=body)
+        t.start()
+        t.join()
+    finally:
+        threading.stack_size(old)
+    if "err" in box:
+        raise bridge.HarnessError(f"harness evaluator exceeded the recursion limit on {case['shape']}")
+    res = box["res"]
+    res["labels"] = sorted(set(res["labels"]) | {"long:" + case["shape"].split(":")[0], "long:" + case["shape"]})
+    res["nontrivial"] = True
+    res["sample"] = {"text": case["text"][:120] + ("..." if len(case["text"]) > 120 else ""), "length": len(case["text"])}
+    return res
+
+
 STREAMS = {
+    "long": {"strategy": long_sentences, "check": check_long},
     "sentences": {"strategy": sentences, "check": check_text},
     "arbitrary": {"strategy": arbitrary_text, "check": check_text},
     "invalid": {"strategy": invalid_sentences, "check": check_text},
@@ -555,6 +662,8 @@ def replay(payload):
     if case.get("kind") == "format":
         st_ = format_task_single(case["text"])
         return st_
+    if case.get("kind") == "long":
+        return check_long(case)["fails"]
     return check_text(case)["fails"]
 
 
@@ -630,6 +739,7 @@ def run(chk):
     chk.absorb(run_stream(__name__, "invalid", chk.tier, chk.seed, 400 if quick else 10000), kind="text")
     chk.absorb(run_stream(__name__, "trees", chk.tier, chk.seed, 1200 if quick else 60000), kind="text")
     chk.absorb(run_stream(__name__, "formats", chk.tier, chk.seed, 800 if quick else 40000), kind="text")
+    chk.absorb(run_stream(__name__, "long", chk.tier, chk.seed, 320 if quick else 6000), kind="text")
     max_len = 6 if quick else 8
     prefixes = ["".join(p) for p in itertools.product("ds0123", repeat=2)]
     tasks = [(p, max_len) for p in prefixes] + [("", 1)]
